@@ -70,7 +70,13 @@ pub fn pick_width(t: &mut Tape, p: WidthProfile) -> u32 {
 }
 
 const SIMPLE_NAMES: [&str; 12] = ["a", "b", "c", "d", "e", "f", "g", "h", "i", "j", "k", "l"];
-const EXOTIC_NAMES: [&str; 16] = [
+const EXOTIC_NAMES: [&str; 21] = [
+    // names that look like literals or keywords once the quotes are stripped
+    "#b0101",
+    "#xff",
+    "#b1",
+    "1.5",
+    "42",
     "x y",
     "1abc",
     "a:b",
